@@ -317,7 +317,7 @@ class sun_md5_crypt(uh.HasRounds, uh.HasSalt, uh.GenericHandler):  # type: ignor
             hash = "$md5,rounds=%d$%s%s" % (rounds, self.salt, ss)
         else:
             hash = f"$md5${self.salt}{ss}"
-        if _withchk:
+        if _withchk and self.checksum:
             chk = self.checksum
             hash = f"{hash}${chk}"
         return hash
